@@ -1,7 +1,7 @@
 (* C02 - ForceFlush and Shutdown are complete, final, and return (batch processors: under every interleaving, given only that
    the worker keeps being scheduled - Batch/Fair.v; periodic reader and providers: evidenced by the scheduled runs).
    Property theorems only; proofs are in Batch/Proofs*.v and Batch/Theorems.v. *)
-From V Require Import Batch.Model Batch.ProofsA Batch.ProofsB Batch.Theorems Batch.Compose Batch.ComposeProofs Batch.Periodic Batch.PeriodicProofs Batch.PeriodicFair Batch.Progress Batch.Fair.
+From V Require Import Batch.Model Batch.ProofsA Batch.ProofsB Batch.Theorems Batch.Glue Batch.Spec Batch.TraceSpec Batch.TraceSpec2 Batch.Compose Batch.ComposeProofs Batch.Periodic Batch.PeriodicProofs Batch.PeriodicFair Batch.Progress Batch.Fair.
 From Coq Require Import List Arith.
 Import ListNotations.
 
@@ -81,6 +81,37 @@ Theorem c02_late_arrivals_bounded : forall ts tr s s',
   is_shut s = true -> (forall u, late s u = true -> In u ts) -> run s tr = Some s' -> adds tr <= length (filter (late s) ts).
 Proof. exact late_adds_bounded. Qed.
 Print Assumptions c02_late_arrivals_bounded.
+
+(* MODEL |= SPEC: every trace the acceptor accepts passes the C02 history checker that ./check runs on the implementation's
+   traces.  Destructor-free traces; more generally traces in which no destructor returns, or in which destructor calls overlap
+   no Shutdown call and no other destructor call (the acceptor accepts a destructor that returns while another thread's
+   Shutdown is still running - application misuse - and the checker rejects that history: c02_destructor_overlap_refutes). *)
+Theorem c02_accepted_trace_meets_spec : forall q b tr s,
+  run (init q b) tr = Some s -> no_destroy tr -> Batch.Spec.spec_c02 (pevs tr) = [].
+Proof. exact accepted_trace_meets_spec_c02. Qed.
+Print Assumptions c02_accepted_trace_meets_spec.
+
+Theorem c02_accepted_trace_meets_spec_no_destructor_return : forall q b tr s,
+  run (init q b) tr = Some s -> no_retdestroy tr -> Batch.Spec.spec_c02 (pevs tr) = [].
+Proof. exact accepted_trace_meets_spec_c02_noret. Qed.
+Print Assumptions c02_accepted_trace_meets_spec_no_destructor_return.
+
+Theorem c02_accepted_trace_meets_spec_exclusive_destructor : forall q b tr s,
+  run (init q b) tr = Some s -> dtor_exclusive tr -> Batch.Spec.spec_c02 (pevs tr) = [].
+Proof. exact accepted_trace_meets_spec_c02_dtor. Qed.
+Print Assumptions c02_accepted_trace_meets_spec_exclusive_destructor.
+
+Theorem c02_destructor_overlap_refutes :
+  (exists s, run (init 1 1) dtor_overlap_trace = Some s) /\ Batch.Spec.spec_c02 (pevs dtor_overlap_trace) <> [] /\
+  dtor_walk ([], None) dtor_overlap_trace = false.
+Proof. exact dtor_overlap_refutes. Qed.
+Print Assumptions c02_destructor_overlap_refutes.
+
+Theorem c02_accepted_trace_spec_nonvacuous :
+  no_destroy demo_trace /\ Batch.Spec.spec_c02 (pevs demo_trace) = [] /\
+  Batch.Spec.spec_c02 (pevs early_true_trace) <> [] /\ run (init 1 1) early_true_trace = None.
+Proof. exact (conj demo_no_destroy (conj demo_passes_spec_c02 early_true_fails_spec_c02)). Qed.
+Print Assumptions c02_accepted_trace_spec_nonvacuous.
 
 (* provider level (TracerProvider / LoggerProvider / MeterProvider over any children, any call sequence) *)
 Theorem c02_compose_meets_spec : forall k cs ops, spec_compose k (length cs) (model k cs ops) = [].
